@@ -35,6 +35,7 @@ type LockAnalysis struct {
 	c        *Ctx
 	name     string
 	isLock   func(ap string) bool
+	isFlag   func(ap string) bool // optional: the boolean that says the lock is in use
 	accesses func(f *ssa.Function) []lockAccess
 	funcs    []*ssa.Function
 
@@ -78,6 +79,13 @@ func (la *LockAnalysis) prunedEdge(b *ssa.BasicBlock, succ int) bool {
 	cond, onTrue := an.EdgeCond(b, succ)
 	if cond == nil {
 		return false
+	}
+	if la.isFlag != nil {
+		// a mutex value behind an "enabled" flag: the edge on which the flag is false
+		v, neg := stripNot(cond)
+		if la.isFlag(an.AP(v)) {
+			return onTrue == neg
+		}
 	}
 	x, k, eq, ok := an.CondAtom(cond)
 	if !ok || k.Value != nil || !la.isLock(an.AP(x)) {
@@ -192,6 +200,10 @@ func NewLockAnalysis(c *Ctx, name string, isLock func(string) bool, accesses fun
 	la := &LockAnalysis{c: c, name: name, isLock: isLock, accesses: accesses, funcs: c.libFuncs(),
 		state: map[*ssa.Function]map[ssa.Instruction]lockMode{}, acc: map[*ssa.Function][]lockAccess{},
 		need: map[*ssa.Function]lockMode{}, why: map[*ssa.Function]string{}}
+	if name == "tree lock" && lockFlagSuffix != "" {
+		suffix := lockFlagSuffix
+		la.isFlag = func(ap string) bool { return strings.HasSuffix(ap, suffix) }
+	}
 	la.acquires = map[*ssa.Function]lockMode{}
 	la.releases = map[*ssa.Function]string{}
 	for _, f := range la.funcs {
@@ -527,8 +539,16 @@ func treeLockAnalysis(c *Ctx) (*LockAnalysis, []string) {
 		})
 		return out
 	}
+	if a.LockIsValue && a.FLockFlag != "" {
+		lockFlagSuffix = "." + a.FLockFlag
+	} else {
+		lockFlagSuffix = ""
+	}
 	return NewLockAnalysis(c, "tree lock", isLock, acc), names
 }
+
+// lockFlagSuffix: set by treeLockAnalysis when the tree lock is a mutex value behind a flag field.
+var lockFlagSuffix string
 
 type rawAccess struct {
 	what    string
